@@ -136,11 +136,19 @@ void prop(const Case& cs) {
     hll_sketch sk = build_sketch(sp, nullptr);
     if (rv) un.update(std::move(sk)); else un.update(sk);
   };
-  auto model_sketch = [&](const Spec& sp) {
+  auto model_sketch = [&](const Spec& sp, bool rvalue) {
     std::set<uint32_t> c;
     hll_sketch sk = build_sketch(sp, &c);
     vf::HllImage im0 = parse(sk);
     int mode = im0.mode;
+    // Only after a reset that retained a reduced precision can an EMPTY union work below lg_max_k. In that (quirk) state an rvalue HLL_8
+    // sketch in coupon mode with lg_k == lg_max_k is adopted as the new gadget, which brings the union back to lg_max_k, while the lvalue
+    // path keeps the retained precision. Like the order of arrival, lvalue / rvalue independence is claimed for histories that start at
+    // lg_max_k; here the model follows the adoption and the case is labelled.
+    if (rvalue && st.m.coupons.empty() && st.lg_k < st.lg_max_k && !sk.is_empty() && mode < 2 && sp.type == 2 && sp.lg_k == st.lg_max_k) {
+      st.lg_k = st.lg_max_k;
+      vf::label("post-reset-rvalue-adoption-restores-lg-max-k");
+    }
     if (mode == 2 && !im0.aux.empty()) vf::label(im0.cur_min > 0 ? "input:HLL_4-exceptions-cur-min>0" : "input:HLL_4-exceptions");
     for (auto x : c) st.m.add(x);
     if (sp.level > 0 && sp.lg_k <= 8) vf::label("input:all-registers-equal");
@@ -176,7 +184,7 @@ void prop(const Case& cs) {
     if (op.name == "u_sk") {
       if (specs.empty()) continue;
       size_t i = op.uarg(0) % specs.size(); bool rv = op.arg(1) & 1;
-      int mode = model_sketch(specs[i]);
+      int mode = model_sketch(specs[i], rv);
       offer_sketch(u, specs[i], rv);
       st.steps.push_back(Step{0, static_cast<int>(i), rv, vf::Item{0, 0}, 0, 0});
       if (!st.gadget_hll && !st.m.coupons.empty()) st.gadget_hll = parse(u.get_result(HLL_8)).mode == 2;  // self-promotion at the current lg_k
